@@ -5,6 +5,7 @@
 (*  reset{parent}  reg{op,s,k,ct,id}  endreq{s}                            *)
 (*  invoke{s, sig, fast, err, errtype, calls, args, rets, bodyrets}        *)
 (*  apply{s, fields, err, errtype, got, untouched}                         *)
+(*  retshape{form, declared, got, calls, panicked}                         *)
 (***************************************************************************)
 EXTENDS InjectP, TraceBase
 CONSTANT Dev
@@ -24,6 +25,11 @@ TInvoke == /\ IsEv("invoke")
 TApply == /\ IsEv("apply")
           /\ Verdict(IF P_ApplyOK(vals, parent, Tr[l].s, Tr[l].fields, Tr[l]) THEN "ok" ELSE "bad")
           /\ UNCHANGED <<vals, parent>>
-TNext == TReset \/ TReg \/ TEndReq \/ TInvoke \/ TApply
+\* the results handed to the ReturnHandler: one call, every result a valid value of the declared result type
+\* ("results come back unchanged", for plain functions and for automatically wrapped ones alike)
+TRetShape == /\ IsEv("retshape")
+             /\ LET e == Tr[l] IN Verdict(IF ~e.panicked /\ e.calls = 1 /\ e.got = e.declared THEN "ok" ELSE "bad")
+             /\ UNCHANGED <<vals, parent>>
+TNext == TReset \/ TReg \/ TEndReq \/ TInvoke \/ TApply \/ TRetShape
 TSpec == TInit /\ [][TNext]_tvars
 ====
